@@ -43,3 +43,80 @@ Definition zero_pad_model (left right : nat) (zero : A) (xs : list A) : list A :
   repeat zero left ++ xs ++ repeat zero right.
 
 End Blocks.
+
+(* ------------------------------------------------------------------ *)
+(* The generator as a resumable object over a LIVE list (round 2).
+   [blocks(buf)] / [Stream(buf).blocks] / [thub(buf, n).blocks] walk a list iterator:
+   position [g_pos] into whatever the list holds when the item is asked for.
+   [loop1] = the body of "for el in seq" from the current state up to the next
+   yield: (Some block | None at the end of the data, state, items consumed). *)
+Section Live.
+Context {A : Type}.
+
+Fixpoint loop1 (skipmode : bool) (size hop : nat) (res : list A) (idx : Z) (xs : list A)
+  : option (list A) * (list A * Z) * nat :=
+  match xs with
+  | [] => (None, (res, idx), 0%nat)
+  | el :: r =>
+    if skipmode && (idx <? 0) then
+      let '(o, st, n) := loop1 skipmode size hop res (idx + 1) r in (o, st, S n)
+    else
+      let res' := dq_push size res el in
+      if idx =? Z.of_nat size - 1 then (Some res', (res', Z.of_nat size - Z.of_nat hop), 1%nat)
+      else let '(o, st, n) := loop1 skipmode size hop res' (idx + 1) r in (o, st, S n)
+  end.
+
+Record gstate := GS { g_res : list A; g_idx : Z; g_pos : nat; g_done : bool }.
+Definition g_init : gstate := GS [] 0 0%nat false.
+
+(* one next() on the generator while the list holds [buf] *)
+Definition gen_next (size hop : nat) (pad : A) (st : gstate) (buf : list A) : option (list A) * gstate :=
+  if g_done st then (None, st) else
+  let '(o, (res, idx), n) :=
+    loop1 (negb (hop <=? size)%nat) size hop (g_res st) (g_idx st) (skipn (g_pos st) buf) in
+  match o with
+  | Some b => (Some b, GS res idx (g_pos st + n)%nat false)
+  | None =>
+    (if Z.max (Z.of_nat size - Z.of_nat hop) 0 <? idx
+     then Some (push_pads size res pad (Z.to_nat (Z.of_nat size - idx))) else None,
+     GS res idx (g_pos st + n)%nat true)
+  end.
+
+(* a history: next() calls interleaved with the owner of the list changing its contents *)
+Inductive hop_t := HNext | HBuf (l : list A).
+
+Fixpoint gen_run (size hop : nat) (pad : A) (ops : list hop_t) (buf : list A) (st : gstate)
+  : list (option (list A)) :=
+  match ops with
+  | [] => []
+  | HNext :: r => let '(o, st') := gen_next size hop pad st buf in o :: gen_run size hop pad r buf st'
+  | HBuf l :: r => gen_run size hop pad r l st
+  end.
+
+(* zero_pad as a resumable object over a live list: [z_l] left pads done, [z_pos] list position,
+   [z_r] = Some r once the list iterator was found exhausted and r right pads were given *)
+Record zstate := ZS { z_l : nat; z_pos : nat; z_r : option nat }.
+Definition z_init : zstate := ZS 0 0 None.
+Definition zp_right (right : nat) (zero : A) (st : zstate) (r : nat) : option A * zstate :=
+  if (r <? right)%nat then (Some zero, ZS (z_l st) (z_pos st) (Some (S r)))
+  else (None, ZS (z_l st) (z_pos st) (Some r)).
+Definition zp_next (left right : nat) (zero : A) (st : zstate) (buf : list A) : option A * zstate :=
+  if (z_l st <? left)%nat then (Some zero, ZS (S (z_l st)) (z_pos st) (z_r st)) else
+  match z_r st with
+  | Some r => zp_right right zero st r
+  | None => match nth_error buf (z_pos st) with
+            | Some x => (Some x, ZS (z_l st) (S (z_pos st)) None)
+            | None => zp_right right zero st 0%nat
+            end
+  end.
+Fixpoint zp_run (left right : nat) (zero : A) (ops : list hop_t) (buf : list A) (st : zstate)
+  : list (option A) :=
+  match ops with
+  | [] => []
+  | HNext :: r => let '(o, st') := zp_next left right zero st buf in o :: zp_run left right zero r buf st'
+  | HBuf l :: r => zp_run left right zero r l st
+  end.
+End Live.
+Arguments hop_t : clear implicits.
+Arguments gstate : clear implicits.
+Arguments zstate : clear implicits.
